@@ -27,6 +27,8 @@ import (
 	"runtime/debug"
 	"sort"
 	"strings"
+	"sync"
+	"sync/atomic"
 	"syscall"
 	"time"
 	"unsafe"
@@ -1834,6 +1836,10 @@ func checkLayout(c *checkCtx) {
 	// 4. real buffer back-ends, mapping side in child processes
 	layoutRunMapped(c)
 
+	// 5. the mapping side attaches while the creator side is in use (a new server process, e.g. after a hot restart, maps a
+	// buffer region that other sessions are allocating from): every attach must reconstruct the creator's geometry
+	layoutRunLiveMapping(c)
+
 	// nothing of ours may stay behind in /dev/shm
 	if left, _ := layoutShmLeftovers(); len(left) > 0 {
 		c.count("shm_files_left_behind_removed", int64(len(left)))
@@ -1869,4 +1875,118 @@ func layoutShmLeftovers() ([]string, error) {
 		}
 	}
 	return out, nil
+}
+
+// layoutRunLiveMapping: allocator traffic (including allocations that fail on an exhausted class) runs on the creator's manager
+// while the same memory is mapped again and again; the geometry a mapper derives must equal the creator's every time.
+func layoutRunLiveMapping(c *checkCtx) {
+	n := c.pick(6, 120)
+	for i := 0; i < n; i++ {
+		rng := caseRand(c.seed, 88000000+i)
+		nclass := 1 + rng.Intn(3)
+		var pairs []*SizePercentPair
+		left := uint32(100)
+		for k := 0; k < nclass; k++ {
+			pct := left
+			if k < nclass-1 {
+				pct = 10 + uint32(rng.Intn(int(left)-10*(nclass-k)))
+			}
+			left -= pct
+			pairs = append(pairs, &SizePercentPair{Size: uint32(32 << uint(k*2)), Percent: pct})
+		}
+		mem := make([]byte, (64<<10)+rng.Intn(64<<10))
+		creator, err := createBufferManager(pairs, "verif-live", mem, 0)
+		c.eval(1)
+		if err != nil {
+			c.inconclusiveCase(fmt.Sprintf("live-mapping-%d", i), "create: "+err.Error())
+			continue
+		}
+		want := layoutGeoOf(creator)
+		// exhaust one class so that allocations on it fail (each failing pop moves the free counter down and up again)
+		exhausted := rng.Intn(len(creator.lists))
+		var hoarded []*bufferSlice
+		for {
+			b, e := creator.lists[exhausted].pop()
+			if e != nil {
+				break
+			}
+			hoarded = append(hoarded, b)
+		}
+		var stop uint32
+		var wg sync.WaitGroup
+		var ops int64
+		for w := 0; w < 4; w++ {
+			wg.Add(1)
+			go func(w int) {
+				defer wg.Done()
+				r := rand.New(rand.NewSource(int64(i*16 + w)))
+				for atomic.LoadUint32(&stop) == 0 {
+					li := r.Intn(len(creator.lists))
+					if w < 2 {
+						li = exhausted
+					}
+					if b, e := creator.lists[li].pop(); e == nil {
+						creator.lists[li].push(b)
+					}
+					atomic.AddInt64(&ops, 1)
+				}
+			}(w)
+		}
+		attaches := c.pick(20000, 200000)
+		var firstBad string
+		bad := 0
+		for a := 0; a < attaches; a++ {
+			m, err := mappingBufferManager("verif-live", mem, 0)
+			if err != nil {
+				bad++
+				if firstBad == "" {
+					firstBad = "mapping failed: " + err.Error()
+				}
+				continue
+			}
+			if prob := layoutCompareStatic(want, layoutGeoOf(m)); prob != "" {
+				bad++
+				if firstBad == "" {
+					firstBad = "geometry differs: " + prob
+				}
+			}
+		}
+		atomic.StoreUint32(&stop, 1)
+		wg.Wait()
+		for _, b := range hoarded {
+			creator.lists[exhausted].push(b)
+		}
+		c.count("live_mapping_attaches", int64(attaches))
+		c.count("live_mapping_allocator_ops_meanwhile", atomic.LoadInt64(&ops))
+		if atomic.LoadInt64(&ops) > 0 {
+			c.nontrivial(fmt.Sprintf("live-mapping/%d/%d", nclass, exhausted))
+		}
+		if bad > 0 {
+			c.violation(fmt.Sprintf("live-mapping-%d", i), map[string]interface{}{"index": i, "classes": nclass, "exhausted_class": exhausted, "failed_attaches": bad, "attaches": attaches},
+				"a peer attaching to a buffer region that is in use (class %d exhausted, allocations failing on it) could not reconstruct the creator's layout in %d of %d attempts: %s",
+				exhausted, bad, attaches, firstBad)
+		}
+	}
+}
+
+// layoutCompareStatic compares what does not change while the allocator runs: classes, capacities, slot sizes, region and
+// header offsets and the identity of the shared words (head/tail/size values move with the traffic and are not compared).
+func layoutCompareStatic(a, b layoutGeo) string {
+	if len(a.Classes) != len(b.Classes) {
+		return fmt.Sprintf("creator has %d classes, mapper %d", len(a.Classes), len(b.Classes))
+	}
+	if a.Min != b.Min || a.Max != b.Max {
+		return fmt.Sprintf("creator min/max slice size %d/%d, mapper %d/%d", a.Min, a.Max, b.Min, b.Max)
+	}
+	for i := range a.Classes {
+		x, y := a.Classes[i], b.Classes[i]
+		if x.Cap != y.Cap || x.CapPerBuffer != y.CapPerBuffer || x.RegionOff != y.RegionOff || x.RegionLen != y.RegionLen || x.HdrOff != y.HdrOff {
+			return fmt.Sprintf("class %d: creator (cap %d capPerBuffer %d region %d+%d hdr %d) != mapper (cap %d capPerBuffer %d region %d+%d hdr %d)",
+				i, x.Cap, x.CapPerBuffer, x.RegionOff, x.RegionLen, x.HdrOff, y.Cap, y.CapPerBuffer, y.RegionOff, y.RegionLen, y.HdrOff)
+		}
+		if x.PSize != y.PSize || x.PCap != y.PCap || x.PHead != y.PHead || x.PTail != y.PTail || x.PCapPerBuf != y.PCapPerBuf || x.PRegion != y.PRegion {
+			return fmt.Sprintf("class %d: the two sides use different shared words", i)
+		}
+	}
+	return ""
 }
